@@ -129,6 +129,22 @@ Proof.
   - apply text_of_txt.
 Qed.
 
+(* Formatter::format with indentation is the rendering of the expanded markup *)
+Lemma format_expand m indent : format m indent = render (expand m indent).
+Proof.
+  unfold format, expand, render. rewrite flat_map_app. f_equal.
+  - destruct indent; cbn [flat_map]; rewrite ?app_nil_r; reflexivity.
+  - induction m as [|p m IH]; [reflexivity|]. cbn [flat_map]. rewrite flat_map_app, <- IH.
+    destruct (indent && has_nl (snd p)); cbn [flat_map app];
+      rewrite ?app_nil_r, <- ?app_assoc; reflexivity.
+Qed.
+
+Lemma text_of_expand_false m : flat_map snd (expand m false) = flat_map snd m.
+Proof.
+  unfold expand. simpl. induction m as [|p m IH]; [reflexivity|].
+  simpl. now rewrite IH.
+Qed.
+
 (* ---------------- writer ---------------- *)
 Fixpoint wbytes (c : option colorspec) (ops : list wop) : bytes :=
   match ops with
